@@ -100,8 +100,8 @@ func (m *Machine) appendOp(s, t Value, site *ssa.CallCommon) Value {
 				}
 				add = tt
 			}
-			if add == nil || bs.Buf == nil || !bs.AtStart || !m.isEmptyLit(bs.T) {
-				panic(m.unsupported("append onto a re-sliced opaque []byte other than x[:0] of a slice whose allocation the engine saw: the write may go through to a backing array shared with other values"))
+			if add == nil || bs.Buf == nil || !bs.AtStart {
+				panic(m.unsupported("append onto a re-sliced opaque []byte that is not a prefix x[:k] of a slice whose allocation the engine saw: the write may go through to a backing array shared with other values"))
 			}
 			return m.appendThrough(bs, add)
 		}
@@ -203,22 +203,28 @@ func (m *Machine) freshBytes(t *Term) ByteSlice {
 // are explored. Other slices of the array are rewritten in place wherever they live (heap walk).
 func (m *Machine) appendThrough(s ByteSlice, add *Term) Value {
 	n := m.strLen(add)
+	p := m.strLen(s.T) // the prefix that is kept (0 for x[:0])
 	if s.Buf.cap == nil {
 		// the capacity is the allocator's choice: anything not below the length allocated
 		s.Buf.cap = m.fresh(fmt.Sprintf("cap.%d", s.Buf.id), SBV(64))
 		m.assume(BVCmp("bvule", m.strLen(s.Buf.born), s.Buf.cap))
 		m.assume(BVCmp("bvult", s.Buf.cap, BVC(64, 1<<40)))
 	}
-	if !m.branch("append.fits-backing-array", BVCmp("bvule", n, s.Buf.cap)) {
-		return m.freshBytes(add)
+	res := add
+	if !m.isEmptyLit(s.T) {
+		res = m.strConcat(s.T, add)
 	}
-	m.note("append(x[:0], ...) wrote through a shared backing array")
+	if !m.branch("append.fits-backing-array", BVCmp("bvule", BVBin("bvadd", p, n), s.Buf.cap)) {
+		return m.freshBytes(res)
+	}
+	m.note("append(x[:k], ...) wrote through a shared backing array")
 	buf := s.Buf
+	whole := m.isEmptyLit(s.T)
 	// phase 1: the distinct live slices of this array, in a deterministic order
 	var live []ByteSlice
 	m.walkValues(func(v Value) Value {
 		y, ok := v.(ByteSlice)
-		if !ok || y.Buf != buf || y.Nil || m.isEmptyLit(y.T) || structEq(y.T, add, 50) {
+		if !ok || y.Buf != buf || y.Nil || m.isEmptyLit(y.T) || structEq(y.T, add, 50) || structEq(y.T, s.T, 50) || structEq(y.T, res, 50) {
 			return v
 		}
 		if !y.AtStart {
@@ -238,15 +244,23 @@ func (m *Machine) appendThrough(s ByteSlice, add *Term) Value {
 	for i, y := range live {
 		ly := m.strLen(y.T)
 		switch {
-		case m.branch("append.overwrites-whole-alias", Eq(ly, n)):
+		case whole && m.branch("append.overwrites-whole-alias", Eq(ly, n)):
 			repl[i] = add
 		case m.Domain == DomString:
-			// shorter alias: a prefix of the new bytes; longer alias: the new bytes, then its old tail
-			longer := BVCmp("bvugt", ly, n)
-			repl[i] = Ite(longer, m.strConcat(add, m.strSlice(y.T, n, nil)), m.strSlice(add, nil, ly))
+			// bytes [p, p+n) of the array change: an alias ending before p is untouched, one ending
+			// inside the written range shows a prefix of the new bytes, a longer one keeps its tail
+			end := BVBin("bvadd", p, n)
+			untouched := BVCmp("bvule", ly, p)
+			longer := BVCmp("bvugt", ly, end)
+			head := m.strSlice(y.T, nil, p)
+			repl[i] = Ite(untouched, y.T, Ite(longer,
+				m.strConcat(m.strConcat(head, add), m.strSlice(y.T, end, nil)),
+				m.strConcat(head, m.strSlice(add, nil, BVBin("bvsub", ly, p)))))
 		default:
 			m.weak = appendUniq(m.weak, []string{"bytes of a slice partly overwritten through a shared backing array (lengths differ) are an unconstrained value in the algebra domain"}, 20)
-			repl[i] = m.fresh("clobbered.bytes", y.T.S)
+			nt := m.fresh("clobbered.bytes", y.T.S)
+			m.assume(Eq(m.strLen(nt), ly))
+			repl[i] = nt
 		}
 	}
 	// phase 3: rewrite every copy wherever it lives
@@ -263,7 +277,7 @@ func (m *Machine) appendThrough(s ByteSlice, add *Term) Value {
 		}
 		return v
 	})
-	return ByteSlice{T: add, Buf: buf, AtStart: true, Resliced: true}
+	return ByteSlice{T: res, Buf: buf, AtStart: true, Resliced: true}
 }
 
 // constBytes renders a slice of constant byte values as a Go string.
